@@ -129,7 +129,7 @@ def op_strategy(kind: str, cfg: dict):
 
 DEFAULT_CFG = {
     "max_ops": 25,
-    "group_classes": ["ContainerGroup", "SimPEGGroup", "UIJsonGroup", "NoTypeGroup", "ContainerGroup"],
+    "group_classes": ["ContainerGroup", "SimPEGGroup", "UIJsonGroup", "NoTypeGroup", "ContainerGroup", "DrillholeGroup"],
     "object_classes": F.CORE_OBJECT_CLASSES,
     "data_kinds": ["float", "int", "bool", "ref", "text"],
     "weights": {"group": 3, "object": 5, "data": 6, "values": 3, "rename": 2, "flag": 2, "move": 4, "copy": 4,
@@ -620,7 +620,8 @@ class TreeRun:
                 if key not in after:
                     if is_type or uid in died:
                         continue
-                    self.fail("C09", "unrelated-node-deleted", opkind, cname, "", f"{cname}/{uid} disappeared from the file")
+                    cond = "lazy-purge-of-removed" if uid.strip("{}") in self.removed else ""
+                    self.fail("C09", "unrelated-node-deleted", opkind, cname, cond, f"{cname}/{uid} disappeared from the file")
                     return
                 if before[key] == after[key]:
                     n_other += 1
